@@ -26,7 +26,7 @@ FILES = dict(d1='dadi/Demographics1D.py', d2='dadi/Demographics2D.py', d3='dadi/
              ds='dadi/DFE/DemogSelModels.py')
 
 META = dict(
-    level='proof',
+    level='other',
     explanation='Every model function is symbolically executed from its current source with the numerical layer as '
                 'uninterpreted function symbols; arity/ordering of the parameter tuple, dimension bookkeeping, result shape and '
                 'the nesting table are equalities of the resulting first-order terms (scalar leaves by z3). The two axioms used to '
@@ -590,7 +590,7 @@ def ob_nest_canary():
 
 
 MANIFEST_ENTRY = dict(
-    category='proof',
+    category='other',
     technique='program algebra: each model function symbolically executed from its source with the numerical layer uninterpreted; '
               'arity, dimension bookkeeping and a 140-row nesting table decided as first-order term equalities (scalar leaves by z3); '
               'bounded numerical nesting as complement',
